@@ -584,6 +584,11 @@ def _oracle_C09_tree(inp):
         segs = e.split("/")
         groups.setdefault(tuple(segs[:index]), []).append(segs)
     expected = {"/".join(max(g)) for g in groups.values()}
+    for kind, cfgname, bs in inp.get("before", []):      # calls made earlier in the session must not matter
+        try:
+            list((FindInAll(cfgname) if kind == "all" else FindInPaths(cfgname)).find(bs, as_sid=False))
+        except BaseException:  # noqa
+            pass
     finders = [("FindInList", lambda: FindInList([e for e in G if Sid(e).type in types])), ("FindInPaths", FindInPaths)]
     if all(uses_paths_finder(u) for u in us):
         finders.append(("FindInAll", FindInAll))
@@ -983,7 +988,17 @@ def oracle_C11(inp):
                     x = Sid(p + "/" + val)
                     if x and x.type in types:
                         expected.add(str(x))
+            first = list(FindInAll().find(s, as_sid=False))
+            for cname in ("local", "server"):      # the path Finders asked about a level they do not serve
+                try:
+                    list(FindInPaths(cname).find(s, as_sid=False))
+                except SpilException:
+                    pass
             got = list(FindInAll().find(s, as_sid=False))
+            if sorted(first) != sorted(got):
+                out.append("FindInAll.find(%r) answered %r, then %r after FindInPaths was asked the same search" % (s, sorted(first), sorted(got)))
+            if len(got) != len(set(got)):
+                out.append("FindInAll.find(%r) yields duplicates: %r" % (s, sorted(got)))
             if set(got) != expected:
                 out.append("FindInAll.find(%r) = %r, but the parents found by %r combined with the constants %r give %r"
                            % (s, sorted(got), head, admitted, sorted(expected)))
@@ -1022,7 +1037,9 @@ def oracle_C12(inp):
     wipe()
     build(leaves, None)
     G = closure(leaves)
-    finders = [("paths", lambda: FindInPaths()), ("list", lambda: FindInList(list(G))), ("all", lambda: FindInAll())]
+    LJ = list(inp.get("list_junk", [])) + list(G)      # entries the configuration does not know come first
+    finders = [("paths", lambda: FindInPaths()), ("list", lambda: FindInList(list(G))), ("all", lambda: FindInAll()),
+               ("list+junk", lambda: FindInList(list(LJ)))]
     for s in inp["searches"]:
         for name, mk in finders:
             try:
@@ -1216,12 +1233,13 @@ def oracle_C16(inp):
                 out.append("record of %r for get(%r, %r): expected %r, got %r" % (x.uri, s, attributes, exp, dict(rec)))
                 break
         us = unfolded(s)
-        if us and all(conf.get_getter_for(u) is not None for u in us) and ">" not in s:
+        if us and all(conf.get_getter_for(u) is not None for u in us):
             try:
                 A = list(GetFromAll().get(s, attributes=attributes, sid_encode=enc))
                 key = lambda r: _json.dumps(r, sort_keys=True, default=str)
-                if sorted(map(key, A)) != sorted(map(key, R)):
-                    out.append("GetFromAll.get(%r) differs from GetFromPaths.get: %r vs %r" % (s, A, R))
+                # one record per Sid the Finder yields, IN THE SAME ORDER
+                if list(map(key, A)) != list(map(key, R)):
+                    out.append("GetFromAll.get(%r) differs from GetFromPaths.get (records / order): %r vs %r" % (s, A, R))
                 one_all = GetFromAll().get_one(s, attributes=attributes, sid_encode=enc)
                 if dict(one_all) != (dict(A[0]) if A else {}):
                     out.append("GetFromAll.get_one(%r) = %r is not the first record of GetFromAll.get: %r" % (s, dict(one_all), A[:1]))
